@@ -7,7 +7,7 @@ C17 — the fragment `W` on which token preservation and idempotence are PROVED
   very first word of the file), a closing brace is alone on its line ·
   simple double-quoted strings `"…"` (one line, no backslash, followed by white space) ·
   simple backquoted strings (one line, any characters — a backslash is literal there —, followed by white space) ·
-  comments `# …` (on their own line or after a word; any text without backslash, no trailing blanks) — not directly after `{` / `}` on the same line, not directly before a `{`.
+  comments `# …` (on their own line, after a word, or after `{` on the same line; any text without backslash, no trailing blanks) — not directly after `}` on the same line, not directly before a `{`.
 
 Everything else (multi-line / escaped quotes, multi-line backquotes, heredocs, escapes, `<`, `#` inside words, braces glued to
 words, one-line blocks, CR, BOM …) is excluded; most of it is excluded because the property is
@@ -113,6 +113,8 @@ def goodFrom : Option Kind → List Chunk → Bool
      | some .dq => !c.sep.isEmpty &&
         (match c.kind with | .opn => c.nl == 0 | .cls => decide (c.nl ≥ 1) | _ => true)
      | some .cmt => c.sep.head? == some rNL && c.kind != .opn
+     | some .opn =>   -- a comment may follow the brace on the same line (it is moved to the next line)
+        (decide (c.nl ≥ 1) || (c.kind == .cmt && !c.sep.isEmpty)) && c.kind != .opn
      | some _ => decide (c.nl ≥ 1) && c.kind != .opn) &&
     goodFrom (some c.kind) cs
 
